@@ -212,7 +212,7 @@ def keyword_shadowing(check: Check, repo: Repo, rules: dict, consts: dict) -> No
             check.count("shadow_checks")
 
 
-def escape_tables(check: Check, repo: Repo, rules: dict, rule: str = "ESCAPE-TABLE", only: str | None = None) -> None:
+def escape_tables(check: Check, repo: Repo, rules: dict, rule: str = "ESCAPE-TABLE", only: str | None = None) -> bool:
     """``only``: report just the categories containing this text (C11 takes the totality part, under its own rule name)."""
     # meta: escape = "\\" ~ ( "\"" | "\\" | "r" | "n" | "t" | "0" | "'" | code | unicode )
     e = rules["escape"][1]
@@ -232,8 +232,9 @@ def escape_tables(check: Check, repo: Repo, rules: dict, rule: str = "ESCAPE-TAB
     # and of the decoder's if-chain further down is a second opinion behind it
     dec_ok = _decode_semantics(check, repo, rules, rule, only)
     if only is not None:
-        return
+        return dec_ok
     check.second_opinion(lambda c: _escape_tables_structural(c, repo, meta_letters), "DECODE", dec_ok)
+    return dec_ok
 
 
 def _escape_tables_structural(check: Check, repo: Repo, meta_letters: set) -> None:
@@ -522,7 +523,7 @@ def trivia_discipline(check: Check, repo: Repo, rules: dict) -> None:
 
 def run(tier: str) -> Check:
     check = Check("C10", tier, EXPLANATION)
-    check.rules = ["TOKEN-LANG", "KEYWORD-SHADOW", "ESCAPE-TABLE", "STRUCTURE", "FRONT-END", "DISPATCH (second opinion)", "SYNTAX (second opinion)", "TRIVIA (second opinion)"]
+    check.rules = ["TOKEN-LANG", "KEYWORD-SHADOW (second opinion)", "ESCAPE-TABLE", "STRUCTURE", "FRONT-END", "DISPATCH (second opinion)", "SYNTAX (second opinion)", "TRIVIA (second opinion)"]
     repo = Repo()
     meta_text = repo.read(META)
     rules = P.read_pest(meta_text, META)
@@ -538,17 +539,18 @@ def run(tier: str) -> Check:
     ]
     consts = scanner_constants(repo)
     token_languages(check, repo, rules, consts)
-    keyword_shadowing(check, repo, rules, consts)
     escape_tables(check, repo, rules)
     structure(check, repo, rules)
     front_ok = front_end(check, repo, tier)
+    # KEYWORD-SHADOW reads the order of self.scan(RE_...) calls in accept_terminal; FRONT-END has every keyword with
+    # every kind of continuation as a model text, whatever the dispatch looks like
+    check.second_opinion(lambda c: keyword_shadowing(c, repo, rules, consts), "FRONT-END", front_ok)
     # structural readings of the scanner / token parser source: second opinions behind FRONT-END and STRUCTURE
     check.second_opinion(lambda c: dispatch(c, repo), "FRONT-END", front_ok)
     check.second_opinion(lambda c: skeleton(c, repo, rules), "FRONT-END", front_ok)
     check.second_opinion(lambda c: trivia_discipline(c, repo, rules), "FRONT-END", front_ok)
     check.floor("front_end_texts", 400)
     check.floor("token_language_comparisons", 17)
-    check.floor("shadow_checks", 10)
     check.floor("structure_entries", 20)
     return check
 
